@@ -444,7 +444,17 @@ impl OcflStore for FsOcflStore {
         }
 
         // The object may have been purged and created again since the new version was staged. The
-        // new version must be based on the versions that the object has now.
+        // new version must be based on the object as it is now.
+        if existing_inventory.head.width != inventory.head.width
+            || existing_inventory.digest_algorithm != inventory.digest_algorithm
+            || existing_inventory.defaulted_content_dir() != inventory.defaulted_content_dir()
+        {
+            return Err(RocflError::IllegalState(format!(
+                "Cannot create version {} in object {} because it is not based on the object's current configuration",
+                version_str, inventory.id
+            )));
+        }
+
         for (num, existing) in &existing_inventory.versions {
             if !inventory
                 .versions
